@@ -3,6 +3,7 @@ Specification of the tar header round trip (C04): what `read_header` must delive
 `write_tar_header` emitted for one entry, and for which entries the writer can be expected to do so.
 -/
 import Sqfs.Model.TarRead
+import Sqfs.Spec.TarNumber
 namespace Sqfs.Tar
 
 /--
@@ -66,5 +67,52 @@ structure Encodable (e : WEntry) (tgt : Option Bytes) (xs : List (Bytes × Bytes
   paxLen : e.hardLink = false → (paxPayload xs).length ≤ 65536
   slink : e.hardLink = false → fmt e.mode = S_IFLNK → e.size ≤ (tgt.getD []).length
   hlink : e.hardLink = true → tgt.isSome
+
+/-- a PAX extended header record as every writer emits it: `"%d %s=%s\n"`, the decimal length in front counting itself -/
+def paxRecord (kw value : Bytes) : Bytes :=
+  let len := kw.length + value.length + 3
+  decStr (len + prefixDigitLen len) ++ [32] ++ kw ++ [61] ++ value ++ [10]
+
+/-! ### reading a header block of *any* dialect (v7, pre-POSIX/GNU, POSIX ustar): field-by-field specification -/
+
+/-- the name a header block carries: POSIX ustar joins a non-empty `prefix` field and the `name` field with '/';
+    v7 and pre-POSIX/GNU blocks have no prefix (that area holds other data) -/
+def specName (h : Bytes) (v : Version) : Bytes :=
+  if (slice h 345 155).headD 0 ≠ 0 ∧ v = .posix then strn (slice h 345 155) ++ [47] ++ strn (slice h 0 100)
+  else strn (slice h 0 100)
+
+/-- a numeric field, unless a PAX record already supplied the value (`set_by_pax`): its exact meaning
+    (`specNumber`: octal digit run or base-256 two's complement) or failure -/
+def specField (mask flag : Nat) (cur : Option α) (f : Bytes) (conv : Nat → α) : Option α :=
+  if hasFlag mask flag then cur else (specNumber f).map conv
+
+/--
+What `decode_header` must deliver for a 512-byte block `h` of dialect `v`, given what the extension records before it
+already set (`mask`, `out`): every numeric field is the exact value its bytes encode or the whole header is refused; PAX
+values win over header fields; the type flag selects the file type bits ('0', NUL and 'S' regular file, '1' hard link —
+permission bits only —, '2' symbolic link with `0777`, '3'…'6' devices, directory, FIFO); anything else is an unknown
+record (to be skipped by the iterator); the link target of '1'/'2' comes from the `linkname` field unless a GNU 'K' /
+PAX `linkpath` record set it.
+-/
+def specDecode (h : Bytes) (mask : Nat) (out : Decoded) (v : Version) : Option Decoded := do
+  let size ← specField mask PAX_SIZE (some out.recordSize) (slice h 124 12) id
+  let uid ← specField mask PAX_UID (some out.uid) (slice h 108 8) id
+  let gid ← specField mask PAX_GID (some out.gid) (slice h 116 8) id
+  let maj ← specField mask PAX_DEV_MAJ (some out.devMajor) (slice h 329 8) (· % 4294967296)
+  let min ← specField mask PAX_DEV_MIN (some out.devMinor) (slice h 337 8) (· % 4294967296)
+  let mt ← specField mask PAX_MTIME (some out.mtime) (slice h 136 12) toSigned
+  let md ← specNumber (slice h 100 8)
+  let tf := (slice h 156 1).headD 0
+  let perm := md % 4096
+  let known := tf = 0 ∨ tf = 48 ∨ tf = 83 ∨ tf = 49 ∨ tf = 50 ∨ tf = 51 ∨ tf = 52 ∨ tf = 53 ∨ tf = 54
+  pure { out with
+    name := if hasFlag mask PAX_NAME then out.name else some (specName h v)
+    link := if (tf = 49 ∨ tf = 50) ∧ ¬ hasFlag mask PAX_SLINK_TARGET then some (strn (slice h 157 100)) else out.link
+    recordSize := size, uid := uid, gid := gid, devMajor := maj, devMinor := min, mtime := mt
+    mode := if tf = 0 ∨ tf = 48 ∨ tf = 83 then perm + S_IFREG else if tf = 49 then perm else if tf = 50 then S_IFLNK + 0o777
+            else if tf = 51 then perm + S_IFCHR else if tf = 52 then perm + S_IFBLK else if tf = 53 then perm + S_IFDIR
+            else if tf = 54 then perm + S_IFIFO else perm
+    hardLink := if tf = 0 ∨ tf = 48 ∨ tf = 83 then out.hardLink else if tf = 49 then true else out.hardLink
+    unknown := decide (¬ known) }
 
 end Sqfs.Tar
